@@ -78,6 +78,14 @@ def arg(typ, text):
     return name == "name" and int(value) == int(text) and type(value).__name__ == ("IntType" if typ == "int" else "UintType"), f"-a name:{typ}={text} -> {value!r}"
 
 
+def arg_string(form, text):
+    import os
+    import celpy.__main__ as m
+    os.environ.pop("name", None)
+    name, tdef, value = m.arg_type_value(form + text)
+    return name == "name" and type(value).__name__ == "StringType" and str(value) == text, f"-a {form}{text} binds {value!r}, expected the string {text!r}"
+
+
 def syntax_error(src):
     status, out, err = _main(["-n", src])
     return status == 1 and bool(err.strip()) and not out, f"celpy -n {src!r}: status {status}, stdout {out}, stderr {err[:80]!r} (a syntax error must exit 1 with a message)"
